@@ -557,7 +557,7 @@ func ruleC05_4(c *Ctx, r *Rep) {
 		r.Check("C05.4", key, or.Pos, okJoin && okOr && okCond, "gate = no predecessor ∨ predecessor completed ∨ predecessor expired, for ordered subscriptions",
 			"the ordering gate is not exactly {no predecessor, predecessor completed, predecessor expired} under sub.OrderedDelivery: got "+c.predString(or)+" / "+c.predString(join)+condString(or.Conds))
 	}
-	r.Floor("C05.4", n, 3)
+	r.Floor("C05.4", n, 2)
 }
 
 // ---------------------------------------------------------------------------
@@ -574,7 +574,7 @@ func ruleC06_1(c *Ctx, r *Rep) {
 		n++
 		r.Check("C06.1", "C06.1:caller:"+o, ci.Pos(), in(o, fnPullApply, fnNack, fnDLSweep), "", "deadLetterDelivery is called from "+o+", which is not pull / nack / sweep")
 	}
-	r.Floor("C06.1", n, 3)
+	r.Floor("C06.1", n, 2)
 }
 
 // triggerOK: the call is dominated by HasFullDeadLetterConfig() true and Attempts >= *MaxDeliveryAttempts true.
